@@ -160,6 +160,9 @@ static int e_cmp3(long a, long b)
     default: return s * (int)(m > 30000 ? 30000 : m);
     }
 }
+/* what a visit callback returns when it asks to stop at its k-th call: any non-zero value must stop the walk
+ * and be handed back unchanged, so sign and size vary with k (the models: StopVal) */
+static int e_stopval(int k) { return k % 3 == 1 ? 100 + k : k % 3 == 2 ? -(100 + k) : (k % 2 ? 1 : -1); }
 static void e_check_priv(const void *p) { if (p != E_PRIV) { e_forced_outcome = "badpriv"; } }
 
 /* ---------------------------------------------------------------- crash capture */
